@@ -26,7 +26,7 @@ EXTRA = {"C01-no-truncate": ["C17"], "C01-global-ofile-first-only": ["C15"], "C1
          "C04-submethod-inherits-skipcopy": ["C12"], "C02-int-widening-ignores-sign": ["C03"], "C03-ci-field-hides-method": ["C05"],
          "C03-enum-float-undetected": ["C08"], "C10-update-target-after-source-in-arg-switch": ["C14"], "C01-output-package-name-sticky": ["C15"],
          "C07-explicit-callers-not-regenerated": ["C01"], "C06-error-retrofit-skips-callers": ["C01"], "C17-update-pointer-source-error-dropped": ["C03"],
-         "C06-update-assign-skips-declared-method": ["C11"], "C02-map-path-nillable-unguarded": ["C05"], "C17-output-dir-single-level": ["C15"], "C02-index-names-reused-after-z": ["C01"]}
+         "C06-update-assign-skips-declared-method": ["C11"], "C02-map-path-nillable-unguarded": ["C05"], "C17-output-dir-single-level": ["C15"], "C02-index-names-reused-after-z": ["C01"], "C04-array-same-type-assigned": ["C03"], "C14-funcformat-custom-func-keeps-converter-role": ["C01"]}
 
 
 def sh(cmd, **kw):
